@@ -801,6 +801,57 @@ let run_ejsondec payload =
      | DFuel -> L [A "out-of-fuel"])
   | _ -> failwith "ejsondec payload"
 
+(* ---- Request / Diagnostic / Decision JSON on trees (Impl/RequestJson.v) ---- *)
+let dres_sx f = function
+  | DOk x -> L [A "ok"; f x]
+  | DErr -> L [A "err"]
+  | DUnk -> L [A "unmodelled"]
+  | DFuel -> L [A "out-of-fuel"]
+
+let run_rjsonenc payload =
+  match payload with
+  | [L [A "req"; p; a; r; c]] ->
+    let ctx = (match value_of_sx c with VRecord kvs -> kvs | _ -> failwith "rjsonenc: context") in
+    L [A "tree"; sx_of_json (enc_request print_ip (fun l -> l)
+                               { rq_principal = uid_of_sx p; rq_action = uid_of_sx a; rq_resource = uid_of_sx r; rq_context = ctx })]
+  | _ -> failwith "rjsonenc payload"
+
+let run_rjsondec payload =
+  match payload with
+  | [t] ->
+    let uid_v (t, i) = sx_of_value (VEntity (t, i)) in
+    dres_sx (fun rq -> L [A "req"; uid_v rq.rq_principal; uid_v rq.rq_action; uid_v rq.rq_resource; sx_of_value (VRecord rq.rq_context)])
+      (dec_request (json_of_sx t))
+  | _ -> failwith "rjsondec payload"
+
+let pos_of_sx = function
+  | [A f; A o; A l; A c] -> { ps_file = str_of_atom f; ps_offset = cz_of_string o; ps_line = cz_of_string l; ps_column = cz_of_string c }
+  | _ -> failwith "position"
+let sx_of_pos p = [A (atom_of_str p.ps_file); A (string_of_cz p.ps_offset); A (string_of_cz p.ps_line); A (string_of_cz p.ps_column)]
+
+let run_djsonenc payload =
+  match payload with
+  | [L [A "diag"; L (A "reasons" :: rs); L (A "errors" :: es)]] ->
+    let d = { dg_reasons = List.map (function L (A "r" :: A id :: pos) -> { rs_policy = str_of_atom id; rs_pos = pos_of_sx pos } | _ -> failwith "reason") rs;
+              dg_errors = List.map (function L [A "e"; A id; f; o; l; c; A msg] -> { de_policy = str_of_atom id; de_pos = pos_of_sx [f; o; l; c]; de_message = str_of_atom msg }
+                                           | _ -> failwith "error") es } in
+    L [A "tree"; sx_of_json (enc_diagnostic d)]
+  | _ -> failwith "djsonenc payload"
+
+let run_djsondec payload =
+  match payload with
+  | [t] ->
+    dres_sx (fun d -> L [A "diag";
+                         L (A "reasons" :: List.map (fun r -> L (A "r" :: A (atom_of_str r.rs_policy) :: sx_of_pos r.rs_pos)) d.dg_reasons);
+                         L (A "errors" :: List.map (fun e -> L ((A "e" :: A (atom_of_str e.de_policy) :: sx_of_pos e.de_pos) @ [A (atom_of_str e.de_message)])) d.dg_errors)])
+      (dec_diagnostic (json_of_sx t))
+  | _ -> failwith "djsondec payload"
+
+let run_decjson payload =
+  match payload with
+  | [t] -> L [A "decision"; A (if dec_decision (json_of_sx t) then "allow" else "deny")]
+  | _ -> failwith "decjson payload"
+
 (* ---- vverdict: Validator.Policy accept / reject (Impl/ValidatePolicy.v) ---- *)
 let run_vverdict payload =
   match payload with
@@ -823,6 +874,11 @@ let run_vverdict payload =
 let run_case kind payload =
   match kind with
   | "vverdict" -> run_vverdict payload
+  | "rjsonenc" -> run_rjsonenc payload
+  | "rjsondec" -> run_rjsondec payload
+  | "djsonenc" -> run_djsonenc payload
+  | "djsondec" -> run_djsondec payload
+  | "decjson" -> run_decjson payload
   | "ejsonenc" -> run_ejsonenc payload
   | "ejsondec" -> run_ejsondec payload
   | "typeof" -> run_typeof payload
